@@ -249,7 +249,7 @@ def abnormal(rec):
 # --------------------------------------------------------------------------------------------
 
 def run_cli(binary, argv, files, cwd=None, cpu_s=20, as_gib=4, wall_s=120, stack_mb=8, keep=False,
-            strace=False, extra_dirs=()):
+            strace=False, extra_dirs=(), fsize=1 << 30):
     """Runs the real customasm binary in a fresh scratch directory. `files` maps relative path ->
     bytes/str. Returns dict(status, signal, stdout, stderr, created{path:bytes}, cpu_s, maxrss_kb,
     wall_timeout)."""
@@ -272,7 +272,10 @@ def run_cli(binary, argv, files, cwd=None, cpu_s=20, as_gib=4, wall_s=120, stack
             resource.setrlimit(resource.RLIMIT_AS, (lim, lim))
             resource.setrlimit(resource.RLIMIT_STACK, (stack_mb * 1024 * 1024, stack_mb * 1024 * 1024))
             resource.setrlimit(resource.RLIMIT_CORE, (0, 0))
-            resource.setrlimit(resource.RLIMIT_FSIZE, (1 << 30, 1 << 30))
+            resource.setrlimit(resource.RLIMIT_FSIZE, (fsize, fsize))
+            if fsize < (1 << 30):
+                # a write beyond the limit then fails with EFBIG instead of killing the process (SIG_IGN survives exec)
+                signal.signal(signal.SIGXFSZ, signal.SIG_IGN)
 
         cmd = [binary] + list(argv)
         trace_path = None
